@@ -71,14 +71,18 @@ fn registry() -> Vec<PartEntry> {
         part!("C05", life::C05Sched),
         part!("C05", seq::C05Seq),
         part!("C06", rtchan::C06Uni),
+        part!("C06", rtchan::C06Multi),
         part!("C07", life::C07CancelAll),
+        part!("C07", rtchan::C07Multi),
         part!("C08", seq::C08Reserved),
         part!("C09", log::C09Log),
         part!("C10", seq::C10Lifetimes),
         part!("C11", rt::C11Exec),
         part!("C11", rtchan::C11Uni),
+        part!("C11", rtchan::C11Multi),
         part!("C12", rt::C12Exec),
         part!("C12", rtchan::C12Uni),
+        part!("C12", rtchan::C12Multi),
         part!("C13", alloc::C13Pool),
         part!("C14", alloc::C14Handles),
         part!("C15", seq::C15Channels),
